@@ -105,6 +105,10 @@ def _cases(draw, tier):
     case["destlink"] = draw(st.integers(0, 3)) == 0
     # refreshing a destination that an earlier `drf ln` (hard or symbolic links) made: the copy may be refused (source and
     # destination are the same file), but "cp leaves the source unchanged" holds whatever happens
+    # a destination that is not empty: some of the files about to be transferred are already there in a STALE version of
+    # the same size and modification time (an earlier archive of a period that was re-generated; rsync -t); cp and mv
+    # replace them
+    case["predest"] = case["cmd"] in ("cp", "mv") and draw(st.integers(0, 3)) == 0
     case["prelink"] = draw(st.sampled_from([None, None, None, None, "ln", "lnsym", "self", "same"])) if case["cmd"] == "cp" and not case["xdev"] else None
     return case
 
@@ -267,6 +271,19 @@ def _run_case(case):
         if case.get("arrive") and expected:
             shutil.copy2, shutil.move, os.link, os.symlink = wrap("copy2"), wrap("move"), wrap("link"), wrap("symlink")
             res.cls("files-arrive-during-command")
+        if case.get("predest") and not case.get("prelink"):
+            res.cls("destination-holds-stale-versions")
+            for di, (dpath_, spath_) in enumerate(sorted(expected.items())):
+                if di % 2 == 0 and os.path.isfile(spath_) and not os.path.islink(spath_):
+                    os.makedirs(os.path.dirname(dpath_), exist_ok=True)
+                    with open(spath_, "rb") as f_:
+                        data_ = bytearray(f_.read())
+                    if data_:
+                        data_[len(data_) // 2] ^= 0x5A
+                    with open(dpath_, "wb") as f_:
+                        f_.write(bytes(data_))
+                    st_ = os.stat(spath_)
+                    os.utime(dpath_, ns=(st_.st_atime_ns, st_.st_mtime_ns))
         if case.get("prelink"):
             res.cls("copy-onto-links-to-the-source")
             pre = argv_for(dict(case, cmd=case["prelink"]), src_cmd, argv[2]) if case["prelink"] in ("ln", "lnsym") else None
@@ -411,7 +428,7 @@ def run_case(case):
 def shrink_candidates(case):
     for key, val in (("chs", None), ("only", False), ("reverse", False), ("start", None), ("end", None), ("drfprops", None),
                      ("dmdprops", None), ("tfmt", "iso"), ("drf", True), ("dmd", True), ("xdev", False), ("symlink", False), ("arrive", None),
-                     ("chform", "plain"), ("destlink", False), ("prelink", None)):
+                     ("chform", "plain"), ("destlink", False), ("prelink", None), ("predest", False)):
         if key not in case:
             continue
         if case[key] != val:
